@@ -73,7 +73,7 @@ class Recorder:
         self.ev.append(kw)
 
 
-def injector(env, rec, arrivals, make_packet, target, on_arrival):
+def injector(env, rec, arrivals, make_packet, target, on_arrival, origin=0):
     """Hand in packets at scripted instants.
 
     arrivals: list of dicts with t (absolute instant) and src: 0 = each arrival is its own process whose timeout is
@@ -105,7 +105,7 @@ def injector(env, rec, arrivals, make_packet, target, on_arrival):
 
     def chain(items):
         for i, a in items:
-            d = a["t"] - env.now
+            d = a["t"] - (env.now - origin)       # scripted instants count from the environment's initial time
             if d > 0:
                 yield env.timeout(d)
             hand_in(i, a)
